@@ -5,7 +5,7 @@ namespace PsdVerif.Generated.PixelSamples
 /-! api/layers.py `PixelLayer.frompil` -/
 
 /-- the nested `plane(band)`, statement by statement -/
-def planeBody : List String := ["if psd_file is not None and depth == 16: { return (np.asarray(band).astype('>u2') * 257).tobytes() }", "if psd_file is not None and depth == 32: { return (np.asarray(band).astype('>f4') / 255.0).astype('>f4').tobytes() }", "return band.tobytes()"]
+def planeBody : List String := ["if band.mode == '1' and depth != 1: { band = band.convert('L') }", "if psd_file is not None and depth == 16: { return (np.asarray(band).astype('>u2') * 257).tobytes() }", "if psd_file is not None and depth == 32: { return (np.asarray(band).astype('>f4') / 255.0).astype('>f4').tobytes() }", "return band.tobytes()"]
 /-- per `depth == N` branch of `plane`: the binary operations with a numeric constant (operator, numerator,
 denominator; innermost first), the dtypes of `astype`, every call in source order -/
 def planeArith : List (Nat × List (String × Int × Nat) × List String × List String) := [(16, [("Mult", (257 : Int), 1)], ["astype:>u2"], ["np.asarray", "astype", "tobytes"]), (32, [("Div", (255 : Int), 1)], ["astype:>f4", "astype:>f4"], ["np.asarray", "astype", "astype", "tobytes"])]
